@@ -26,6 +26,37 @@ theorem pick_resolve {tr : Trail} : ∀ {c : Clause} {name r : Nat}, pick tr c =
         · obtain ⟨a', v, h1, h2, h3, h4, h5, h6⟩ := ih h
           exact ⟨a', v, h1, h2, h3, h4, List.mem_cons_of_mem _ h5, h6⟩
 
+/-- `sh` lists, position by position, clauses with the same members as those of `cnf` (the
+learned clauses as a replay computes them vs. as `resolution`'s set order left them). -/
+def Shadow (sh cnf : CNF) : Prop :=
+  sh.length = cnf.length ∧
+  ∀ (i : Nat) (c d : Clause), sh[i]? = some c → cnf[i]? = some d → ∀ l, l ∈ c ↔ l ∈ d
+
+theorem Shadow.refl (cnf : CNF) : Shadow cnf cnf :=
+  ⟨rfl, fun i c d hc hd l => by rw [hc] at hd; cases hd; exact Iff.rfl⟩
+
+theorem Shadow.get {sh cnf : CNF} (h : Shadow sh cnf) {i : Nat} {d : Clause}
+    (hd : cnf[i]? = some d) : ∃ c, sh[i]? = some c ∧ ∀ l, l ∈ c ↔ l ∈ d := by
+  have hi : i < sh.length := by rw [h.1]; exact (List.getElem?_eq_some_iff.mp hd).1
+  exact ⟨sh[i], List.getElem?_eq_getElem hi, h.2 i _ d (List.getElem?_eq_getElem hi) hd⟩
+
+theorem Shadow.snoc {sh cnf : CNF} (h : Shadow sh cnf) {c d : Clause} (hcd : ∀ l, l ∈ c ↔ l ∈ d) :
+    Shadow (sh ++ [c]) (cnf ++ [d]) := by
+  refine ⟨by simp [h.1], ?_⟩
+  intro i c' d' hc' hd'
+  by_cases hi : i < sh.length
+  · rw [List.getElem?_append_left hi] at hc'
+    rw [List.getElem?_append_left (h.1 ▸ hi)] at hd'
+    exact h.2 i c' d' hc' hd'
+  · have hlen : i < (sh ++ [c]).length := (List.getElem?_eq_some_iff.mp hc').1
+    have : i = sh.length := by simp at hlen; omega
+    subst this
+    simp at hc'
+    rw [h.1] at hd'
+    simp at hd'
+    subst hc' hd'
+    exact hcd
+
 /-- The replay of `proof` over `cnf` succeeds with a clause having the members of `clause`. -/
 def Replays (cnf : CNF) (proof : List Nat) (clause : Clause) : Prop :=
   ∃ c, replayProof cnf proof = some c ∧ ∀ l, l ∈ c ↔ l ∈ clause
@@ -76,8 +107,8 @@ theorem analyze_step {cnf : CNF} {tr : Trail} {level : Nat} (ht : TrailOK cnf tr
     ∃ D, cnf[r]? = some D ∧ ∀ o,
       AllFalse tr (resolveWith clause D name o) ∧
       (∀ base, Entailed base clause → Entailed base D → Entailed base (resolveWith clause D name o)) ∧
-      (∀ c, (∀ l, l ∈ c ↔ l ∈ clause) →
-        ∃ c', resolveStep c D = some c' ∧ ∀ l, l ∈ c' ↔ l ∈ resolveWith clause D name o) := by
+      (∀ c D', (∀ l, l ∈ c ↔ l ∈ clause) → (∀ l, l ∈ D' ↔ l ∈ D) →
+        ∃ c', resolveStep c D' = some c' ∧ ∀ l, l ∈ c' ↔ l ∈ resolveWith clause D name o) := by
   obtain ⟨a, v, ha, han, hdec, har, hvc, hva⟩ := pick_resolve hp
   obtain ⟨D, hD, haD, hrest⟩ := ht.reason a ha hdec
   subst han har
@@ -113,15 +144,15 @@ theorem analyze_step {cnf : CNF} {tr : Trail} {level : Nat} (ht : TrailOK cnf tr
         cases h : a.val <;> simp [h] at s2
       · exact ⟨l2, mem_resolveWith.mpr ⟨Or.inr h2, e2⟩, s2⟩
     · exact ⟨l1, mem_resolveWith.mpr ⟨Or.inl h1, e1⟩, s1⟩
-  · intro c hcm
-    refine ⟨resolveCanon c D a.name, ?_, ?_⟩
+  · intro c D' hcm hDm
+    refine ⟨resolveCanon c D' a.name, ?_, ?_⟩
     · apply resolveStep_of_unique_clash (w := a.val)
       · exact (hcm _).mpr hvc
-      · exact haD
+      · exact (hDm _).mpr haD
       · exact fun x hx => hc1 x ((hcm x).mp hx)
-      · exact hd1
+      · exact fun x hx => hd1 x ((hDm x).mp hx)
       · intro x hx hxd
-        rcases hrest _ hxd with e | ⟨_, b', hb', hn', hv', _⟩
+        rcases hrest _ ((hDm _).mp hxd) with e | ⟨_, b', hb', hn', hv', _⟩
         · exact congrArg Prod.fst e
         · exfalso
           obtain ⟨b, hb, hb1, hb2⟩ := hf x ((hcm x).mp hx)
@@ -131,7 +162,7 @@ theorem analyze_step {cnf : CNF} {tr : Trail} {level : Nat} (ht : TrailOK cnf tr
           rw [hv'] at hb2
           cases h : x.2 <;> simp [h] at hb2
     · intro l
-      rw [mem_resolveCanon, mem_resolveWith, hcm l]
+      rw [mem_resolveCanon, mem_resolveWith, hcm l, hDm l]
 
 theorem analyze_spec {cnf : CNF} {tr : Trail} {level : Nat} (ht : TrailOK cnf tr level) (base : CNF)
     (hbase : ∀ c ∈ cnf, Entailed base c) :
@@ -139,33 +170,36 @@ theorem analyze_spec {cnf : CNF} {tr : Trail} {level : Nat} (ht : TrailOK cnf tr
       (proof' : List Nat) (clause' : Clause) (orc' : List Clause),
       analyze af cnf tr proof clause orc = .ok (proof', clause', orc') →
       proof ≠ [] → (∀ j ∈ proof, j < cnf.length) →
-      AllFalse tr clause → Entailed base clause → Replays cnf proof clause →
-      (∀ j ∈ proof', j < cnf.length) ∧ Entailed base clause' ∧ Replays cnf proof' clause' := by
+      AllFalse tr clause → Entailed base clause →
+      (∀ j ∈ proof', j < cnf.length) ∧ Entailed base clause' ∧
+      ∀ sh, Shadow sh cnf → Replays sh proof clause → Replays sh proof' clause' := by
   intro af
   induction af with
   | zero => intro proof clause orc proof' clause' orc' h; simp [analyze] at h
   | succ f ih =>
-    intro proof clause orc proof' clause' orc' h hne hlt hf he hr
+    intro proof clause orc proof' clause' orc' h hne hlt hf he
     unfold analyze at h
     split at h
     · cases h
-    · cases h; exact ⟨hlt, he, hr⟩
+    · cases h; exact ⟨hlt, he, fun _ _ hr => hr⟩
     · rename_i name r hp
       obtain ⟨D, hD, hstep⟩ := analyze_step ht hp hf
       simp only [hD] at h
       obtain ⟨s1, s2, s3⟩ := hstep orc.head?
       have hrlt : r < cnf.length := (List.getElem?_eq_some_iff.mp hD).1
-      refine ih _ _ _ _ _ _ h (by simp) ?_ s1 ?_ ?_
-      · intro j hj
-        rcases List.mem_append.mp hj with hj | hj
-        · exact hlt j hj
-        · simp only [List.mem_singleton] at hj; subst hj; exact hrlt
-      · exact s2 base he (hbase D (List.mem_iff_getElem?.mpr ⟨r, hD⟩))
-      · obtain ⟨c, hc, hcm⟩ := hr
-        obtain ⟨c', hc', hcm'⟩ := s3 c hcm
-        refine ⟨c', ?_, hcm'⟩
-        rw [replayProof_snoc hne, hc]
-        simp only [replayStep, hD]
-        exact hc'
+      obtain ⟨i1, i2, i3⟩ := ih _ _ _ _ _ _ h (by simp) (by
+          intro j hj
+          rcases List.mem_append.mp hj with hj | hj
+          · exact hlt j hj
+          · simp only [List.mem_singleton] at hj; subst hj; exact hrlt) s1
+        (s2 base he (hbase D (List.mem_iff_getElem?.mpr ⟨r, hD⟩)))
+      refine ⟨i1, i2, fun sh hsh hr => i3 sh hsh ?_⟩
+      obtain ⟨c, hc, hcm⟩ := hr
+      obtain ⟨D', hD', hDm⟩ := hsh.get hD
+      obtain ⟨c', hc', hcm'⟩ := s3 c D' hcm hDm
+      refine ⟨c', ?_, hcm'⟩
+      rw [replayProof_snoc hne, hc]
+      simp only [replayStep, hD']
+      exact hc'
 
 end Holpy.C15
